@@ -87,9 +87,26 @@ def _winit(cfg):
         _S['server'] = e1.Server(cfg['conf'], builddir=cfg['build'], lsan=False)
         _S['server_lsan'] = None
         _S['world'] = proto.World(cfg['services'], cfg['rules'], _S['server'].banner, cfg['timeout'], cfg.get('pbudget', 3))
+        _S['worlds'] = make_worlds(cfg, _S['server'].banner)
+        if _S['worlds']:
+            _S['world'] = _S['worlds'][None]
     except Exception:
         traceback.print_exc()
         raise
+
+
+def make_worlds(cfg, banner):
+    """{reload path or None (initial table): World} when the search reloads between service tables, else {}."""
+    tabs = cfg.get('reload_tables') or {}
+    if not tabs:
+        return {}
+    types = dict(cfg['services'])
+    for t in tabs.values():
+        types.update(dict(t))
+    ws = {None: proto.World(cfg['services'], cfg['rules'], banner, cfg['timeout'], cfg.get('pbudget', 3), dynamic=True, all_types=types)}
+    for path, t in tabs.items():
+        ws[path] = proto.World(t, cfg['rules'], banner, cfg['timeout'], cfg.get('pbudget', 3), dynamic=True, all_types=types)
+    return ws
 
 
 def _stats_in_use(lines):
@@ -105,6 +122,8 @@ def _stats_in_use(lines):
 def _expand_task(task):
     """task: dict(sid, hist, M, old, keyh, events, flags, eof_all)"""
     cfg, srv, w = _S['cfg'], _S['server'], _S['world']
+    if _S.get('worlds'):
+        w = _S['worlds'][task.get('wname')]
     try:
         return _expand(task, cfg, srv, w)
     except HarnessError as e:
@@ -152,6 +171,10 @@ def _expand(task, cfg, srv, w):
         new_serial = ctx['serial'] + 1
         Mn, V, W = proto.step(w, M, ev, ctx, new_serial, r.out)
         V = list(V)
+        wname = task.get('wname')
+        if ev[0] == 'RL' and _S.get('worlds') and ev[1] in _S['worlds']:
+            Mn = proto.reload_step(Mn, w, _S['worlds'][ev[1]])
+            wname = ev[1]
         # ---- C04 state form: a stray reply changes nothing at all
         if ev[0] == 'X':
             inst = proto.M_get(M, ev[1])
@@ -195,7 +218,7 @@ def _expand(task, cfg, srv, w):
             if ncur.get(j) != s:
                 nold[j] = s
         canon = canon_dump(r.dump, keep_refs)
-        key = (canon, Mn, tuple(sorted(nold)))
+        key = (canon, Mn, tuple(sorted(nold))) + ((wname,) if _S.get('worlds') else ())
         # ---- C07: per-client behaviour recorded from solo runs / compared in multi-client runs
         if (cfg.get('record_delta') or cfg.get('delta')) and len(ev) > 1 and isinstance(ev[1], int):
             i = ev[1]
@@ -217,13 +240,13 @@ def _expand(task, cfg, srv, w):
         kh = keyhash(key)
         seen = _S.setdefault('seen', set())
         if kh in seen:
-            rec.update({'key': kh, 'V': V, 'W': W, 'out': r.out if V else None, 'kinds': tuple(l.split(' ')[0] for l in r.out)})
+            rec.update({'key': kh, 'V': V, 'W': W, 'out': r.out if V else None, 'kinds': tuple(l.split(' ')[0] for l in r.out), 'wname': wname})
         else:
             if len(seen) < 2000000:
                 seen.add(kh)
             rec.update({'key': kh, 'dumph': keyhash(canon), 'M': Mn, 'old': nold, 'cur': ncur, 'serial': core['serial'],
                         'V': V, 'W': W, 'out': r.out, 'kinds': tuple(l.split(' ')[0] for l in r.out),
-                        'timers': {d['id']: d['timer'] for d in r.dump if d['t'] == 'req'}, 'orphans': core['orphan_timers']})
+                        'timers': {d['id']: d['timer'] for d in r.dump if d['t'] == 'req'}, 'orphans': core['orphan_timers'], 'wname': wname})
         out.append(rec)
     return {'sid': sid, 'results': out}
 
@@ -264,13 +287,13 @@ def _first_diff(a, b, path=''):
 
 # ---- coordinator -----------------------------------------------------------------------------------
 class State:
-    __slots__ = ('parent', 'ev', 'cev', 'out', 'depth', 'M', 'old', 'cur', 'serial', 'dumph', 'timers', 'key', 'orphans')
+    __slots__ = ('parent', 'ev', 'cev', 'out', 'depth', 'M', 'old', 'cur', 'serial', 'dumph', 'timers', 'key', 'orphans', 'wname')
 
 
 class Search:
     def __init__(self, run, services, rules, timeout, ids, alphabet, flags=e1.F_DUMP | e1.F_STATS,
                  nworkers=16, maxdepth=None, maxstates=None, keep_refs=False, pbudget=3, label='', conf_extra='',
-                 record_delta=False, delta=None, delta_complete=None, reload_files=None):
+                 record_delta=False, delta=None, delta_complete=None, reload_files=None, reload_tables=None):
         self.run = run
         self.b = _build.build()
         self.services, self.rules, self.timeout, self.ids = list(services), list(rules), timeout, list(ids)
@@ -296,6 +319,9 @@ class Search:
                     f.write(text)
                 self.reload_paths[name] = path
                 self.reload_texts[path] = text
+        # service table each reload target puts in force (the observer follows the table; without it the observer keeps the initial one)
+        self.reload_tables = {self.reload_paths[n]: [tuple(x) for x in t] for n, t in (reload_tables or {}).items()}
+        self.cfg['reload_tables'] = self.reload_tables
         self.delta = {}
         self.states = []
         self.index = {}
@@ -349,6 +375,7 @@ class Search:
         st.depth = 0 if parent is None else self.states[parent].depth + 1
         st.M, st.old, st.cur, st.serial, st.dumph, st.timers, st.key = rec['M'], rec['old'], rec['cur'], rec['serial'], rec['dumph'], rec['timers'], rec['key']
         st.orphans = rec.get('orphans', 0)
+        st.wname = rec.get('wname')
         self.states.append(st)
         self.index[rec['key']] = len(self.states) - 1
         self.depth_hist[st.depth] = self.depth_hist.get(st.depth, 0) + 1
@@ -387,7 +414,7 @@ class Search:
                     if self.reload_paths:
                         evs = [('RL', self.reload_paths[e[1]]) if e[0] == 'RL' and e[1] in self.reload_paths else e for e in evs]
                     tasks.append({'sid': sid, 'hist': self.history(sid), 'M': st.M, 'old': st.old, 'cur': st.cur, 'serial': st.serial,
-                                  'dumph': st.dumph, 'events': evs, 'flags': self.flags})
+                                  'dumph': st.dumph, 'events': evs, 'flags': self.flags, 'wname': st.wname})
                 nxt = []
                 aborted = False
                 timed_out = False
@@ -571,6 +598,8 @@ class Search:
              'symbolic_raw': [list(e) for e in self.sym_history(sid)] + [list(ev)]}
         if self.reload_texts:
             o['reload_files'] = dict(self.reload_texts)
+        if self.reload_tables:
+            o['reload_tables'] = {p: [list(x) for x in t] for p, t in self.reload_tables.items()}
         if extra:
             o.update(extra)
         return o
